@@ -285,6 +285,8 @@ def with_replay(m):
     if kind == 'step':
         out['replay'] = rl.record('step', {'regs': a['regs'], 'result': y}, {
             **pr, 'out_index': b, 'step_index': a['index'], 'rng': rl.state_json(a['rng']), 'program_rng': rl.state_json(a['program_rng'])})
+    elif kind == 'lazy_scenario':
+        out['replay'] = rl.record('lazy_scenario', {'x0': a, 'result': y}, {**pr, 'step': b})
     elif kind == 'decomp_scenario':
         out['replay'] = rl.record('decomp_scenario', {'m': a['m'], 'result': y}, {**pr, 'step': b, 'which': a['which'], 'params': a['params'], 'factor': a['factor']})
     elif kind == 'solve_scenario':
@@ -413,6 +415,38 @@ def run(ctx):
                 ctx.nontrivial((sym, ferm, 'nested-scenario', str(sorted(x0.blocks))))
         except (ValueError, KeyError, IndexError) as e:
             raised['scenario:' + type(e).__name__] = raised.get('scenario:' + type(e).__name__, 0) + 1
+    # ---- structural operations on fermionic arrays that CARRY pending signs (the sign table has to be re-keyed with the blocks)
+    for k in range(n_prog):
+        sym = [sy for sy in SYMS if sy != 'Z4'][k % (len(SYMS) - 1)]
+        try:
+            x0 = gen.rand_lazy(rng, sr, gen.rand_array(rng, sr, sym, ndim=rng.randint(1, 3), fermionic=True, oddpos=rng.randint(1, 99), maxsize=2,
+                                                       keep=rng.choice([1.0, 0.7])), steps=rng.randint(1, 3))
+            if not x0.blocks or not x0.phases:
+                continue
+            x0_full = rl.describe_safe(x0)
+            ax = rng.randint(0, x0.ndim)
+            steps_ = [('expand_dims(%d)' % ax, lambda a: a.expand_dims(ax)),
+                      ('expand_dims(%d).squeeze(%d)' % (ax, ax), lambda a: a.expand_dims(ax).squeeze(ax)),
+                      ('expand_dims(%d).squeeze()' % ax, lambda a: a.expand_dims(ax).squeeze()),
+                      ('transpose()', lambda a: a.transpose()), ('conj()', lambda a: a.conj()), ('dagger()', lambda a: a.dagger())]
+            if x0.ndim >= 2:
+                steps_ += [('fuse((0, 1))', lambda a: a.fuse((0, 1))), ('fuse((1, 0)).unfuse(0)', lambda a: a.fuse((1, 0)).unfuse(0))]
+            for nm, f in steps_:
+                try:
+                    y = f(x0)
+                except (ValueError, KeyError, IndexError) as e:
+                    raised['lazy_scenario:' + type(e).__name__] = raised.get('lazy_scenario:' + type(e).__name__, 0) + 1
+                    continue
+                ctx.count()
+                if any(p_ not in (1, -1) for p_ in y.phases.values()):
+                    found.append({'error': '%s: a pending sign is not +-1' % nm, 'op': nm, 'symmetry': sym, 'fermionic': True, 'program': [nm],
+                                  'result': describe(y), '_rp': ('lazy_scenario', x0_full, nm, y)})
+                exprs.append(valid_expr(y, sym, True))
+                meta.append({'op': nm, 'symmetry': sym, 'fermionic': True, 'program': ['(array with pending signs) ' + nm], 'result': describe(y),
+                             '_rp': ('lazy_scenario', x0_full, nm, y)})
+            ctx.nontrivial(('lazy-structural', sym, str(sorted(x0.blocks)), str(sorted(x0.phases))))
+        except (ValueError, KeyError, IndexError) as e:
+            raised['lazy_scenario:' + type(e).__name__] = raised.get('lazy_scenario:' + type(e).__name__, 0) + 1
     # ---- decompositions of matrices of every kind (any total charge incl. odd, any directions, blocks stored in random order):
     #      every factor is judged (the random programs reach a decomposition only now and then)
     import symmray.linalg as la2
@@ -759,7 +793,21 @@ def _rp_decomp(sr, ins, pr, r):
     return _invalid(y, now, '%s(m, %r) factor %d' % (which, params, pr['factor']))
 
 
-ORACLES = {'step': _rp_step, 'nested_scenario': _rp_nested, 'twin_scenario': _rp_twin, 'solve_scenario': _rp_solve, 'decomp_scenario': _rp_decomp}
+def _rp_lazy(sr, ins, pr, r):
+    """a structural operation written as Python text in pr['step'], applied to the recorded array with pending signs"""
+    x0 = ins['x0']
+    try:
+        y = eval('x0.' + pr['step'], {'x0': x0})
+    except Exception as e:
+        print('  the operation raises now (%s: %s): no array is returned' % (type(e).__name__, e))
+        return []
+    now, rec = coq_valid([y, ins['result']], pr['symmetry'], True)
+    print('  Coq validity predicate on the array returned now: %s; on the recorded array: %s' % (now, rec))
+    return _invalid(y, now, 'x0.' + pr['step'])
+
+
+ORACLES = {'step': _rp_step, 'nested_scenario': _rp_nested, 'twin_scenario': _rp_twin, 'solve_scenario': _rp_solve, 'decomp_scenario': _rp_decomp,
+           'lazy_scenario': _rp_lazy}
 
 
 def replay(path):
